@@ -201,21 +201,26 @@ def kv(line):
 def run(ctx):
     rng, cov = ctx.rng, ctx.coverage
     meta13, err13 = vlib.regen_extracted("C13")       # Copy proofs import the C13 pipeline (typed indexer fact)
-    meta12, err12 = vlib.regen_extracted("C12")       # where copy's "finding needed blobs" walk starts
+    meta12, err12 = vlib.regen_extracted("C12")       # copy's walk start, rewrite's root guard, the modifier's sort
+    meta08, err08 = vlib.regen_extracted("C08")       # copy_preserves_content imports the C08 repacker/packer development
     r = vlib.proof_stage(ctx)
     if err13:
         r["ok"] = False; r["failures"].append("fact extraction (C13: Indexer.indexed element type) failed: " + err13)
+    if err08:
+        r["ok"] = False; r["failures"].append("fact extraction (C08: pack header constants) failed: " + err08)
     if err12:
-        r["ok"] = False; r["failures"].append("fact extraction (C12: starting set of copy's tree walk) failed: " + err12)
-    cov["source_facts"] = {"C13": meta13, "C12": meta12}
+        r["ok"] = False; r["failures"].append("fact extraction (C12: copy's walk start / rewrite root guard / modifier sort) failed: " + err12)
+    cov["source_facts"] = {"C13": meta13, "C12": meta12, "C08": meta08}
     cov["trusted_base"] += ["std::collections::BinaryHeap pops a greatest element (in the abstract model its order among equally named nodes is the parameter `sched`, theorems hold for every permutation; the literal model re-implements std's sift_up / sift_down_to_bottom and is compared exactly)",
                             "the `ignore` crate's override matcher (oracle input for rewrite, not modelled)",
-                            "props/C12/extract.py (starting set of copy's tree walk in commands/copy.rs)",
+                            "props/C12/extract.py (starting set of copy's tree walk in copy.rs, root guard of Rewriter::rewrite_tree, sort of a changed tree in TreeModifier::modify_tree)",
+                            "props/C08/extract.py and the C08 development (repacker, packer) imported by copy_preserves_content",
                             "props/C13/extract.py (Indexer.indexed element type)"]
     ctx.assumptions += [
         "tree ids are collision-free hashes of the serialised tree: equality of ids is modelled as equality of tree values (node_eqb)",
         "names are ordered as the raw (unescaped) file names, bytewise - the order trees are stored in and, since fix 54f57aa, the order merge compares; input trees of merge are strictly sorted in that order at every level (wf_tree), checked on every case; unsorted inputs are only run through the literal loop model",
-        "the loop as written (merge_loop_gen) is proved correct for every priority queue meeting pq_spec; that the extracted BinaryHeap transcription (heap_push/heap_pop) meets pq_spec is trusted, and it is compared exactly with the implementation on every case",
+        "the loop as written (merge_loop_gen) is proved correct for every priority queue meeting the specification, and the BinaryHeap transcription (heap_push/heap_pop) is proved to meet it on heap-ordered vectors (heap_meets_pq_spec); that the transcription IS std's algorithm is validated by exact comparison with the implementation on every case, ties included",
+        "copy_preserves_content: AEAD/zstd of both repositories enter as `sdecode` (any function) and `ddec (denc x) = Some x`; header encryption adds 32 bytes; needed entries have distinct ids (BTreeSet in copy.rs); blobs the destination already had are the same content as the source's (content addressing, hypothesis of copy_restores_identically)",
         "cmp is a total preorder (reflexive, transitive, Gt antisymmetric): holds for last_modified_node and the other comparisons used",
         "TreeModifier visitor caches (changed/unchanged maps keyed by tree id resp. (path, id)) are memoisation of a function of the key and are not modelled",
         "copy: the blobs reach the destination through the packer pipeline of C13 (any interleaving); source repository closed (every reachable blob indexed in the source)",
@@ -330,9 +335,11 @@ def run(ctx):
         elines.append("G %d %d %d" % (s, rng.choice([2, 2, 3, 4]), 1 if i % 5 == 4 else 0))
     for i, s in enumerate(seeds(nW)):
         # bit 4: one tree blob at several paths (directories of hard links) + anchored excludes below one occurrence
-        elines.append("W %d %d" % (s, [0, 4, 2, 6, 0, 1, 4, 2][i % 8]))
+        # bit 8: a glob that also matches the empty root path (`!*`, `!**`, `!/**`, ...)
+        elines.append("W %d %d" % (s, [0, 4, 2, 6, 8, 1, 4, 2, 0, 10][i % 10]))
     for i, s in enumerate(seeds(nR)):
-        elines.append("R %d %d" % (s, i % 8))
+        # bit 8: a file whose marked name sorts after its siblings (`k` -> `k.repaired` > `k+`, `k-1`) loses its data
+        elines.append("R %d %d" % (s, (i % 8) if i % 4 else (8 | (i % 8 & 2))))
     if ctx.replay:
         rp = json.load(open(ctx.replay))
         c = rp["witness"].get("case", "")
@@ -384,6 +391,40 @@ def run(ctx):
                                           len(marked), " ".join("%d %d" % (rk[a], rk[b]) for a, b in sorted(marked.items())))
             for oi, t in enumerate(O):
                 jobs.append(("rp", ln, head + " " + fmt_tree(t, rkf), (t, N.get(oi)), order, set(marked.values())))
+    cp_jobs = []          # (case, run, model line, set of (type, id) the run added to the destination index)
+    def tie_copy(ln, segs, jobs):
+        key = lambda h: bytes.fromhex(h) if h != "-" else b""
+        T, I, Q, B, D = [], {}, {}, {}, {}
+        for sg in segs:
+            tk = sg.split()
+            if tk[0] == "T": T.append(map_names(parse_tree(tk[1:], 0)[0], key))
+            elif tk[0] == "I":
+                n = int(tk[3]); I[int(tk[1])] = (int(tk[2]), {tk[4 + 2 * j]: int(tk[5 + 2 * j]) for j in range(n)})
+            elif tk[0] == "Q": Q[int(tk[1])] = [int(x) for x in tk[3:3 + int(tk[2])]]
+            elif tk[0] in "BD":
+                n = int(tk[2]); st_ = set((int(tk[3 + 2 * j]), int(tk[4 + 2 * j])) for j in range(n))
+                (B if tk[0] == "B" else D)[int(tk[1])] = st_
+        ns = set()
+        for t in T: all_names(t, ns)
+        order = sorted(ns); rk = {n: i for i, n in enumerate(order)}
+        rkf = lambda n: str(rk[n])
+        table, src = [], set()
+        def walk(t, tid_, path, dirs):
+            table.append((tid_, t)); src.add((1, tid_))
+            for n in t:
+                if n[1] == 0:
+                    for c in n[4]: src.add((0, c))
+                if n[1] == 1:
+                    p_ = path + [n[0].hex()]
+                    walk(n[5], dirs["/".join(p_)], p_, dirs)
+        for i, t in enumerate(T):
+            walk(t, I[i][0], [], I[i][1])
+        tabs = " ".join("%d %s" % (i_, fmt_tree(t_, rkf)) for i_, t_ in table)
+        srcs = " ".join("%d %d" % x for x in sorted(src))
+        for k in sorted(Q):
+            snaps_ = " ".join(fmt_tree(T[i], rkf) for i in Q[k])
+            dsts = " ".join("%d %d" % x for x in sorted(B[k]))
+            jobs.append((ln, k, "%d %s %d %s %d %s %d %s" % (len(table), tabs, len(Q[k]), snaps_, len(src), srcs, len(B[k]), dsts), D[k]))
     for ln, out in zip(elines, eout):
         m = ln[0]
         hist["e2e_" + m] = hist.get("e2e_" + m, 0) + 1
@@ -421,8 +462,10 @@ def run(ctx):
             out = segs[0]
             if m in "WR" and len(segs) > 1:
                 tie_modifier(m, ln, segs[1:], wr_jobs)
+            if m == "C" and len(segs) > 1:
+                tie_copy(ln, segs[1:], cp_jobs)
             d = kv(out)
-            for k_ in ("coll", "coll_tree", "prepop", "excluded", "marked", "repaired", "tree_pack", "unsorted", "present_before", "needed", "needed_ok", "damaged", "lost_tree_pack", "lost_blobs", "shared_dirs"):
+            for k_ in ("coll", "coll_tree", "prepop", "excluded", "marked", "repaired", "tree_pack", "unsorted", "present_before", "needed", "needed_ok", "damaged", "lost_tree_pack", "lost_blobs", "shared_dirs", "root_ignored", "lookup_ok", "merge_self_ok"):
                 if k_ in d and d[k_].isdigit():
                     hist["%s_%s" % (m, k_)] = hist.get("%s_%s" % (m, k_), 0) + int(d[k_])
             if m == "C" and int(d.get("present_before", 0)) + int(d.get("coll", 0)) + int(d.get("coll_tree", 0)) + int(d.get("damaged", 0)) > 0: nontriv.add(ln)
@@ -433,6 +476,10 @@ def run(ctx):
                 what = {"C": "copied snapshot does not restore identically from the destination",
                         "W": "rewrite does not remove exactly the excluded paths",
                         "R": "repair_snapshots: intact repository changed, or a file kept without the marker lost its content"}[m]
+                if m == "R" and d.get("merge_self_ok") == "0":
+                    what = "repair_snapshots: a repaired snapshot does not merge to the union of its paths (a tree written by repair is out of name order)"
+                elif m == "R" and d.get("lookup_ok") == "0":
+                    what = "repair_snapshots: an entry of a repaired snapshot is not found by path"
                 viol.append((what, ln, out[:600], None))
             if len(samples) < 6 and m in "CWR" and not any(s.get("case", "")[0] == m for s in samples):
                 samples.append({"case": ln, "impl": out[:400]})
@@ -471,10 +518,24 @@ def run(ctx):
                     good = False
                 if not good:
                     mism.append((ln, o[:300], "%s model differs from the tree the implementation wrote (%s)" % (md, "no new tree" if new is None else "new tree")))
+    # the extracted copy model: needed = seen - destination's typed index, against the index delta of every run
+    if model and cp_jobs:
+        mo = run_lines(model, [j[2] for j in cp_jobs], mode="cp")
+        for (ln, k, ml, delta), o in zip(cp_jobs, mo):
+            tk = o.split()
+            if tk[0] != "ok":
+                mism.append((ln, o[:200], "copy model fails on run %d" % k)); continue
+            n = int(tk[1]); lst = [(int(tk[2 + 2 * j]), int(tk[3 + 2 * j])) for j in range(n)]
+            types = [t_ for t_, _ in lst]
+            if set(lst) != delta or types != sorted(types):
+                mism.append((ln, o[:200], "run %d: extracted `needed` (%d blobs) differs from the (type, id) pairs the copy added to the destination index (%d)" % (k, len(set(lst)), len(delta))))
+            else:
+                hist["cp_model_equals_index_delta"] = hist.get("cp_model_equals_index_delta", 0) + 1
+                hist["cp_model_blobs"] = hist.get("cp_model_blobs", 0) + len(delta)
     cov.update({"evaluations": len(mcases) + len(elines), "distinct_nontrivial": len(nontriv),
-                "rule": "M: k in 0..6 hand-built trees over a small name pool incl. pairs whose order flips under escaping (overlapping names; file/dir/symlink/fifo under one name; mtimes from 1, 2, 4 or 9 values incl. None; depth <= 3; a tree merged with itself; 12% with unsorted levels for the literal loop model) x cmp in {mtime, tag, always-Equal, dirs-first}; non-trivial = some name occurs in two inputs.  e2e: C copy (src/dst with different key, compression, pack sizes 1 B..400 kB, two overlapping copy runs, optional pre-populated destination, optional third run after the destination lost a data or non-root tree pack + repair_index (partial closure under present root trees), optional data blob = empty tree blob and data blob = stored non-empty tree blob), G merge_snapshots of 2..4 real backups with clashing names/types and 3 mtime values, W rewrite with 0..3 exclude globs (literal path, bare name, prefix*, path/*; 3 of 8 cases: directories of hard links sharing one tree blob at 5 paths with anchored excludes below one or two occurrences), R repair_snapshots on the intact repository and after removing one data or tree pack + repair_index; non-trivial = collision/pre-populated, clash, something excluded, something damaged",
+                "rule": "M: k in 0..6 hand-built trees over a small name pool incl. pairs whose order flips under escaping (overlapping names; file/dir/symlink/fifo under one name; mtimes from 1, 2, 4 or 9 values incl. None; depth <= 3; a tree merged with itself; 12% with unsorted levels for the literal loop model) x cmp in {mtime, tag, always-Equal, dirs-first}; non-trivial = some name occurs in two inputs.  e2e: C copy (src/dst with different key, compression, pack sizes 1 B..400 kB, two overlapping copy runs, optional pre-populated destination, optional third run after the destination lost a data or non-root tree pack + repair_index (partial closure under present root trees), optional data blob = empty tree blob and data blob = stored non-empty tree blob), G merge_snapshots of 2..4 real backups with clashing names/types and 3 mtime values, W rewrite with 0..3 exclude globs (literal path, bare name, prefix*, path/*; globs matching the empty root path; 3 of 8 cases: directories of hard links sharing one tree blob at 5 paths with anchored excludes below one or two occurrences), R repair_snapshots on the intact repository and after removing one data or tree pack + repair_index (1 in 4: a file whose marked name sorts after its siblings), repaired snapshots looked up by path and merged with themselves; non-trivial = collision/pre-populated, clash, something excluded, something damaged",
                 "samples": samples, "distribution": hist,
-                "traces_validated_against_impl": len(mcases) + len(glines) + len(wr_jobs),
+                "traces_validated_against_impl": len(mcases) + len(glines) + len(wr_jobs) + len(cp_jobs),
                 "disagreements_checked": len(mism) + len(viol), "model_impl_mismatches": len(mism), "oracle_violations": len(viol)})
     for what, case, detail, sig in viol[:25]:
         ctx.violation(what, {"case": case, "detail": detail,
